@@ -74,7 +74,7 @@ def run_batches(prop, verif_seed, tier, budget_s=None, workers=None, extra_cfg=N
     return agg
 
 
-def shrink_and_replay(prop, violations, max_sigs=4):
+def shrink_and_replay(prop, violations, max_sigs=4, known=None):
     """Minimise one violation per signature, write the replay file, confirm it in a fresh interpreter."""
     mod = importlib.import_module(MODULES[prop])
     from .shrink import shrink
@@ -86,7 +86,10 @@ def shrink_and_replay(prop, violations, max_sigs=4):
     for sig, r in list(by_sig.items())[:max_sigs]:
         def run(plan):
             return mod.execute_isolated(plan)
-        best, res, steps = shrink(r['plan'], run, sig, mod.shrink_candidates, budget=mod.SHRINK_BUDGET if hasattr(mod, 'SHRINK_BUDGET') else 500)
+        budget = mod.SHRINK_BUDGET if hasattr(mod, 'SHRINK_BUDGET') else 500
+        if known is not None and known.match(prop, sig) is not None:
+            budget = 40      # a listed finding: keep the replay file small-ish, but do not spend the check's time on it
+        best, res, steps = shrink(r['plan'], run, sig, mod.shrink_candidates, budget=budget)
         final = mod.execute_isolated(best, want_trace=True)
         if not final['violation'] or final['violation']['signature'] != sig:
             best, final = r['plan'], None
@@ -131,10 +134,10 @@ def cmd_replay(path):
     return EXIT_HARNESS
 
 
-def determinism_selftest(prop, verif_seed, n, workers_list=(1, None)):
+def determinism_selftest(prop, verif_seed, n, workers_list=(3, None)):
     """
-    Same seeds: batch workers (several worker counts) vs a fresh interpreter under another
-    PYTHONHASHSEED.  All digests must agree.
+    Same seeds executed at two worker counts in this process tree and once more in a fresh interpreter
+    under another PYTHONHASHSEED.  All digests must agree.
     """
     mod = importlib.import_module(MODULES[prop])
     classes = [c for (c, _) in mod.tier_config('quick')['classes']]
@@ -148,21 +151,14 @@ def determinism_selftest(prop, verif_seed, n, workers_list=(1, None)):
                 raise HarnessError(r['harness_error'])
             d[(r['cls'], r['index'])] = r['digest']
         runs.append(d)
-    # reversed order in one process (world-reset completeness)
-    d = {}
-    for r in Batch(1).map(MODULES[prop], 'run_one', {'verif_seed': verif_seed}, list(reversed(items)), chunk=len(items), hang_s=600):
-        if 'harness_error' in r:
-            raise HarnessError(r['harness_error'])
-        d[(r['cls'], r['index'])] = r['digest']
-    runs.append(d)
-    # fresh interpreter, different hash seed
+    # fresh interpreter, different hash seed, reversed order
     env = dict(os.environ)
     env['PYTHONHASHSEED'] = '12345'
     env['VERIF_HASHSEED'] = '12345'
     p = subprocess.run([sys.executable, '-B', os.path.join(kernel.VERIF_DIR, 'sim', 'entry.py'), 'digests', prop,
-                        str(verif_seed), json.dumps(items)], capture_output=True, text=True, env=env, timeout=1800)
+                        str(verif_seed), json.dumps(list(reversed(items)))], capture_output=True, text=True, env=env, timeout=1800)
     if p.returncode != 0:
-        raise HarnessError(f"digest subprocess failed: {p.stderr[-1500:]}")
+        raise HarnessError(f"digest subprocess failed: {p.stdout[-800:]} {p.stderr[-1500:]}")
     d = {tuple(k): v for (k, v) in json.loads(p.stdout.strip().splitlines()[-1])}
     runs.append(d)
     mismatches = []
@@ -171,17 +167,18 @@ def determinism_selftest(prop, verif_seed, n, workers_list=(1, None)):
         if len(set(vals)) != 1:
             mismatches.append([list(key), vals])
     return {'seeds': len(items), 'executions_per_seed': len(runs), 'configurations':
-            ['1 worker', f'{os.cpu_count()} workers', '1 worker reversed order', 'fresh interpreter PYTHONHASHSEED=12345'],
+            ['3 workers', f'{Batch().workers} workers', 'fresh interpreter, PYTHONHASHSEED=12345, reversed order, 8 workers'],
             'mismatches': len(mismatches), 'mismatch_examples': mismatches[:3]}
 
 
 def cmd_digests(prop, verif_seed, items_json):
     kernel.import_repo()
-    mod = importlib.import_module(MODULES[prop])
     out = []
-    for it in json.loads(items_json):
-        r = mod.run_one({'verif_seed': int(verif_seed)}, tuple(it))
-        out.append([it, r['digest']])
+    items = [tuple(it) for it in json.loads(items_json)]
+    for r in Batch(8).map(MODULES[prop], 'run_one', {'verif_seed': int(verif_seed)}, items, chunk=10, hang_s=600):
+        if 'harness_error' in r:
+            raise HarnessError(r['harness_error'])
+        out.append([[r['cls'], r['index']], r['digest']])
     print(json.dumps(out))
     return 0
 
@@ -199,6 +196,7 @@ def cmd_check(prop, tier, budget_s=None, selftest_n=None):
         budget_s = float(env_budget)
     print(f"[{prop}] tier={tier} VERIF_SEED={verif_seed} repo={kernel.REPO_DIR} tree={kernel.repo_fingerprint()}", flush=True)
     agg = run_batches(prop, verif_seed, tier, budget_s=budget_s)
+    print(f"[{prop}] batches: {agg['evaluations']} runs in {agg['wall_batch_s']:.1f}s", flush=True)
     if agg['harness_errors']:
         print("HARNESS-ERROR:", agg['harness_errors'][0]['harness_error'][-3000:])
         return EXIT_HARNESS
@@ -209,7 +207,10 @@ def cmd_check(prop, tier, budget_s=None, selftest_n=None):
         agg['violations'].extend(extra_viol)
         agg.setdefault('extra', {}).update(extra.get('evidence', {}))
     known = KnownFindings()
-    reported, by_sig = shrink_and_replay(prop, agg['violations']) if agg['violations'] else ([], {})
+    t1 = time.time()
+    reported, by_sig = shrink_and_replay(prop, agg['violations'], known=known) if agg['violations'] else ([], {})
+    if agg['violations']:
+        print(f"[{prop}] minimise+replay: {len(reported)} signature(s) in {time.time() - t1:.1f}s", flush=True)
     exit_code = EXIT_OK
     unlisted = 0
     for rep in reported:
@@ -238,7 +239,9 @@ def cmd_check(prop, tier, budget_s=None, selftest_n=None):
     n_self = selftest_n if selftest_n is not None else conf.get('selftest_n', 0)
     det = None
     if n_self:
+        t2 = time.time()
         det = determinism_selftest(prop, verif_seed, n_self)
+        print(f"[{prop}] determinism self-test: {det['seeds']} seeds x {det['executions_per_seed']} in {time.time() - t2:.1f}s", flush=True)
         if det['mismatches']:
             print(f"HARNESS-ERROR: determinism self-test failed: {det['mismatch_examples']}")
             exit_code = EXIT_HARNESS
